@@ -118,8 +118,16 @@ std::optional<SmFailed> SmFailed::fromDom(const QDomElement &el)
         return {};
     }
 
+    std::optional<quint32> h;
+    if (el.hasAttribute(u"h"_s)) {
+        bool ok = false;
+        if (auto value = el.attribute(u"h"_s).toUInt(&ok); ok) {
+            h = value;
+        }
+    }
     return SmFailed {
         conditionFromString(firstChildElement(el, {}, ns_stanza).tagName()),
+        h,
     };
 }
 
@@ -127,6 +135,9 @@ void SmFailed::toXml(QXmlStreamWriter *w) const
 {
     w->writeStartElement(QSL65("failed"));
     w->writeDefaultNamespace(toString65(ns_stream_management));
+    if (h) {
+        w->writeAttribute(QSL65("h"), QString::number(*h));
+    }
     if (error) {
         writeEmptyElement(w, conditionToString(*error), ns_stanza);
     }
@@ -200,6 +211,14 @@ void StreamAckManager::enableStreamManagement(bool resetSequenceNumber)
 {
     m_enabled = true;
 
+    // stanzas the server reported as handled when it refused to resume the previous session are
+    // acknowledged, not sent again (reported below, once the queue is consistent again)
+    QVector<QXmppPacket> handledByFailedSession;
+    if (m_handledByFailedSession) {
+        handledByFailedSession = takeAcknowledged(*m_handledByFailedSession);
+        m_handledByFailedSession.reset();
+    }
+
     if (resetSequenceNumber) {
         m_lastOutgoingSequenceNumber = 0;
         m_lastIncomingSequenceNumber = 0;
@@ -226,6 +245,15 @@ void StreamAckManager::enableStreamManagement(bool resetSequenceNumber)
             sendAcknowledgementRequest();
         }
     }
+
+    for (auto &packet : handledByFailedSession) {
+        packet.reportFinished(QXmpp::SendSuccess { true });
+    }
+}
+
+void StreamAckManager::setHandledByFailedSession(unsigned int sequenceNumber)
+{
+    m_handledByFailedSession = sequenceNumber;
 }
 
 QVector<QXmppPacket> StreamAckManager::takeAcknowledged(unsigned int sequenceNumber)
@@ -331,6 +359,13 @@ void StreamAckManager::sendAcknowledgementRequest()
 
 void StreamAckManager::resetCache()
 {
+    // what the server is known to have handled was delivered, whatever happens to the rest
+    if (m_handledByFailedSession) {
+        auto handled = *m_handledByFailedSession;
+        m_handledByFailedSession.reset();
+        setAcknowledgedSequenceNumber(handled);
+    }
+
     for (auto &packet : m_unacknowledgedStanzas) {
         packet.reportFinished(QXmppError {
             u"Disconnected"_s,
